@@ -23,6 +23,9 @@ pub struct LuaDocParser<'a, 'b> {
     current_token_range: SourceRange,
     origin_token_index: usize,
     pub state: LuaDocParserState,
+    /// verif hook: nesting depth of traced operations (only outermost ones are recorded)
+    #[cfg(feature = "verif")]
+    verif_depth: u32,
 }
 
 impl MarkerEventContainer for LuaDocParser<'_, '_> {
@@ -55,7 +58,18 @@ impl<'b> LuaDocParser<'_, 'b> {
             current_token_range: SourceRange::EMPTY,
             origin_token_index: 0,
             state: LuaDocParserState::Normal,
+            #[cfg(feature = "verif")]
+            verif_depth: 0,
         };
+        #[cfg(feature = "verif")]
+        {
+            let line = tokens
+                .iter()
+                .map(|t| format!("{}:{}:{}", t.kind as u16, t.range.start_offset, t.range.length))
+                .collect::<Vec<_>>()
+                .join(",");
+            parser.lua_parser.verif_doc_trace.push(format!("G{line}"));
+        }
 
         parser.init();
 
@@ -69,7 +83,25 @@ impl<'b> LuaDocParser<'_, 'b> {
         self.bump();
     }
 
+    /// verif hook: record an operation of the doc grammar on this parser (`B` bump, `S<state>`
+    /// set_lexer_state, `E` bump_to_end, `K<kind>` set_current_token_kind) unless it is issued
+    /// from inside another recorded operation; `L<kind>.<len>` records every doc-lexer result.
+    #[cfg(feature = "verif")]
+    fn verif_op(&mut self, op: String) {
+        if self.verif_depth == 0 {
+            self.lua_parser.verif_doc_trace.push(op);
+        }
+        self.verif_depth += 1;
+    }
+
+    #[cfg(feature = "verif")]
+    fn verif_op_end(&mut self) {
+        self.verif_depth -= 1;
+    }
+
     pub fn bump(&mut self) {
+        #[cfg(feature = "verif")]
+        self.verif_op("B".to_string());
         if !is_invalid_kind(self.current_token) {
             self.lua_parser.get_events().push(MarkEvent::EatToken {
                 kind: self.current_token,
@@ -78,6 +110,8 @@ impl<'b> LuaDocParser<'_, 'b> {
         }
 
         self.calc_next_current_token();
+        #[cfg(feature = "verif")]
+        self.verif_op_end();
     }
 
     fn calc_next_current_token(&mut self) {
@@ -175,6 +209,13 @@ impl<'b> LuaDocParser<'_, 'b> {
 
             kind = self.lexer.lex();
             if kind != LuaTokenKind::TkEof {
+                #[cfg(feature = "verif")]
+                {
+                    let len = self.lexer.current_token_range().length;
+                    self.lua_parser
+                        .verif_doc_trace
+                        .push(format!("L{}.{}", kind as u16, len));
+                }
                 break;
             }
         }
@@ -200,6 +241,8 @@ impl<'b> LuaDocParser<'_, 'b> {
     }
 
     pub fn set_lexer_state(&mut self, state: LuaDocLexerState) {
+        #[cfg(feature = "verif")]
+        self.verif_op(format!("S{:?}", state));
         match state {
             LuaDocLexerState::Description => {
                 if !matches!(
@@ -237,6 +280,8 @@ impl<'b> LuaDocParser<'_, 'b> {
         }
 
         self.lexer.state = state;
+        #[cfg(feature = "verif")]
+        self.verif_op_end();
     }
 
     fn re_calc_detail(&mut self) {
@@ -284,10 +329,14 @@ impl<'b> LuaDocParser<'_, 'b> {
     }
 
     pub fn bump_to_end(&mut self) {
+        #[cfg(feature = "verif")]
+        self.verif_op("E".to_string());
         self.set_lexer_state(LuaDocLexerState::Trivia);
         self.eat_current_and_lex_next();
         self.set_lexer_state(LuaDocLexerState::Init);
         self.bump();
+        #[cfg(feature = "verif")]
+        self.verif_op_end();
     }
 
     pub fn push_error(&mut self, error: LuaParseError) {
@@ -308,6 +357,11 @@ impl<'b> LuaDocParser<'_, 'b> {
     }
 
     pub fn set_current_token_kind(&mut self, kind: LuaTokenKind) {
+        #[cfg(feature = "verif")]
+        {
+            self.verif_op(format!("K{}", kind as u16));
+            self.verif_op_end();
+        }
         self.current_token = kind;
     }
 }
